@@ -3,16 +3,21 @@ C04 — cancellation reaches every descendant context and nothing else; one winn
 
 Model: `CtxTree cfg reg prog` (Model/C04.lean), an interleaving system at atomic-access granularity over any number of
 threads (each with its own context list), any number of contexts, arbitrary per-thread programs of
-cancel / bind / destroy / reset, registry walk order `reg`.  `cfg` carries two facts about the code that are re-extracted
-from /repo on every run (Generated/C04.lean); the theorems below are stated over the generated values `genCfg`, so on a
-tree in which a fact is false the corresponding hypothesis is a broken obligation (reported by the check), and on a tree
-in which it is true the theorem is unconditional.
+cancel / bind / destroy / reset, registry walk order `reg`.  `cfg` carries three facts about the code that are re-extracted
+from /repo on every run (Generated/C04.lean: which mutexes the propagator holds, whether the binder's copy can clear a flag,
+which fields `reset` stores to); the theorems below are stated over the generated values `genCfg`, so on a tree in which a
+fact is false the corresponding hypothesis is a broken obligation (reported by the check), and on a tree in which it is
+true the theorem is unconditional.
+
+Ghost stamps (Model/C04.lean): a clock `clk` ticks at every winning exchange of `cancel_group_execution` and at every store
+of 0 to a cancellation flag by `reset`; `wst a` = clock value of the latest winning exchange on `a`, `rst x` = clock value
+of the latest reset of `x` (0 = never).
 
 All theorems quantify over every registry, every program and every schedule (`List Tid`); nothing is bounded.
 The closed witnesses (`…_fails_…`) are the negations for the protocol as coded before the repairs.
 -/
 import TbbVerif.Generated.C04
-import TbbVerif.Proofs.C04.ReachAll
+import TbbVerif.Proofs.C04.Final
 import TbbVerif.Proofs.C04.WinAll
 import TbbVerif.Proofs.C04.Quiet
 
@@ -21,7 +26,7 @@ open TbbVerif TbbVerif.C04
 
 /-- the protocol as the current source tree has it -/
 def genCfg : Cfg :=
-  ⟨Generated.C04.propagatorHoldsPropagationMutex, Generated.C04.bindCopyNeverClears⟩
+  mkCfg Generated.C04.propagatorHoldsPropagationMutex Generated.C04.bindCopyNeverClears Generated.C04.resetSeqCode
 
 /-- no cancel / bind / destroy / reset is in flight -/
 def Quiescent (s : St) : Prop := ∀ t, s.pc t = .idle
@@ -81,29 +86,139 @@ theorem cancel_sticky (hgen : Generated.C04.bindCopyNeverClears = true)
   intro s s'
   exact (sticky_runFrom (cfg := genCfg) (reg := reg) hgen (x := x) sched' s (sw_run genCfg hgen reg prog sched)).2
 
-/-- **Cancellation reaches every bound descendant** — the main theorem.  For the protocol in which the propagator holds
-the mutex that the binder's fall-back takes and the binder's copies cannot clear the flag: for every registry, all
-programs without reset, all schedules, in every quiescent state every context bound beneath a cancelled context is
+/-- `a`'s latest winning `cancel_group_execution` has stamp `m`, and `a` has not been reset since: `a` is cancelled by a call
+of its own that has not been undone -/
+def CurrentCancel (s : St) (a m : Nat) : Prop := s.wst a = m ∧ s.rst a < m
+
+/-- `x`, and every context strictly between `x` and its ancestor `a`, was last reset before stamp `m` (or never) -/
+def FreshBelow (s : St) (x a m : Nat) : Prop := s.rst x ≤ m ∧ ∀ z, Anc s.par x z → Anc s.par z a → s.rst z ≤ m
+
+/-- neither `x` nor a context strictly between `x` and its ancestor `a` is registered in the context list of a thread that
+has left the registry (ghost `oc`, set for every context of a thread's list when its thread_data is removed from
+my_threads_list) -/
+def RegisteredBelow (s : St) (x a : Nat) : Prop := s.oc x = false ∧ ∀ z, Anc s.par x z → Anc s.par z a → s.oc z = false
+
+/-- the reach property of a final state in the presence of resets and of threads that come and go: every context bound
+(directly or transitively) beneath a context whose winning cancel is still current is cancelled, unless it — or a context
+on the path between the two — was reset after that cancel won, or is registered in the list of a thread that has exited -/
+def ReachesAllBoundFresh (s : St) : Prop :=
+  ∀ x a m, s.cst x = .bound → Anc s.par x a → CurrentCancel s a m → FreshBelow s x a m → RegisteredBelow s x a →
+    s.can x = true
+
+/-- programs in which no thread leaves the registry -/
+def NoExit (prog : Nat → List Op) : Prop := ∀ t, Op.exit ∉ prog t
+
+/-- **Cancellation reaches every bound descendant, with resets** — the main theorem.  For the protocol in which the
+propagator holds the mutex that the binder's fall-back takes, the binder's copies cannot clear the flag and `reset` does
+not store to my_may_have_children: for every registry, ALL programs (any mixture of cancel / bind / destroy / reset,
+including resets of contexts that have bound children and resets that race with other operations), all schedules, in
+every quiescent state: a context `a` whose latest winning cancel (stamp `m`) has not been undone by a reset of `a` is
+cancelled, and every context `x` bound beneath `a` is cancelled — including contexts that were being bound while the
+cancellation was propagating — unless `x` or a context strictly between `x` and `a` was reset after the winning exchange.
+(The exception is necessary: resetting an intermediate context `p` and then binding a fresh context under `p` legitimately
+yields an uncancelled context beneath the still cancelled `a`.)  No sequencing discipline on `reset` is needed.
+The registry is dynamic: threads may register while cancellations are in flight (their context lists start at epoch 0
+whatever the global epoch is) and may exit; the conclusion excludes the contexts that sit in the orphaned list of an exited
+thread (`RegisteredBelow`) — for those the code really loses the cancellation (`reach_fails_for_orphaned_list`). -/
+theorem cancel_reaches_all_bound_with_reset
+    (hmutex : Generated.C04.propagatorHoldsPropagationMutex = true)
+    (hcopy : Generated.C04.bindCopyNeverClears = true)
+    (hreset : Generated.C04.resetClearsMayHaveChildren = false)
+    (reg : List Nat) (prog : Nat → List Op) (sched : List Nat) :
+    let s := (CtxTree genCfg reg prog).run sched
+    Quiescent s → (∀ a m, CurrentCancel s a m → s.can a = true) ∧ ReachesAllBoundFresh s := by
+  have hcfg : genCfg = C genCfg.resetSeq := by
+    unfold genCfg
+    rw [hmutex, hcopy]
+    exact mkCfg_eq _
+  rw [hcfg]
+  intro s hq
+  exact reach_fresh_core (allInv_run (mkCfg_keeps_hint hreset) reg prog sched) hq
+
+/-- **The hint is never cleared while there are children** — the invariant the reach proof rests on.  If `reset` does not
+store to my_may_have_children (generated fact), then in every reachable state of every program and schedule the
+may_have_children hint of a context that has a registered child — or a child whose binder is past the hint store — is set;
+no step (in particular no `reset` of the parent) clears it.  `cancel_group_execution` skips the propagation exactly when
+the hint is clear, so a `reset` that cleared it would make the parent's next cancellation miss the children that stayed
+bound across the reset (`reach_fails_when_reset_clears_hint`). -/
+theorem mhc_monotone_while_children (hreset : Generated.C04.resetClearsMayHaveChildren = false)
+    (reg : List Nat) (prog : Nat → List Op) (sched : List Nat) :
+    let s := (CtxTree genCfg reg prog).run sched
+    (∀ L x p, x ∈ s.items L → s.par x = some p → s.mhc p = true) ∧
+    (∀ t p, (s.pc t).pastHint = some p → s.mhc p = true) := by
+  intro s
+  have h := hint_run genCfg (mkCfg_keeps_hint hreset) reg prog sched
+  exact ⟨h.mhcReg, h.mhcBind⟩
+
+/-- **reset(x) touches only x**: any access of a `reset(x)` call (from any state, under any protocol parameters) leaves the
+cancellation flag, the hint, the parent, the state and the list membership of every other context unchanged. -/
+theorem reset_clears_only_self (cfg : Cfg) (reg : List Nat) (s : St) (t x : Nat) (h : ResetStep s t x) :
+    ∀ y, y ≠ x → (step cfg reg s t).can y = s.can y ∧ (step cfg reg s t).mhc y = s.mhc y ∧
+      (step cfg reg s t).par y = s.par y ∧ (step cfg reg s t).cst y = s.cst y ∧ (step cfg reg s t).lst y = s.lst y :=
+  fun y hy => reset_step_frame h y hy
+
+/-- **Sticky across resets of other contexts**: along any continuation of a reachable state in which `x` itself is not
+reset, a cancelled `x` stays cancelled — whatever other contexts (its parent, its children, unrelated ones) are reset. -/
+theorem cancel_sticky_across_other_resets (hgen : Generated.C04.bindCopyNeverClears = true)
+    (reg : List Nat) (prog : Nat → List Op) (sched sched' : List Nat) (x : Nat) :
+    let s := (CtxTree genCfg reg prog).run sched
+    let s' := (CtxTree genCfg reg prog).runFrom s sched'
+    s.can x = true → s'.resets x = s.resets x → s'.can x = true := by
+  intro s s' hc hr
+  rcases cancel_sticky hgen reg prog sched sched' x hc with h | h
+  · exact h
+  · have : s.resets x < s'.resets x := h
+    omega
+
+/-- the documented precondition of `reset`, as a predicate on a state: thread `t` may reset `x` only if no other registered
+thread has an operation in flight on `x` or on a context bound (directly or transitively) beneath `x` -/
+def ResetAllowed (reg : List Nat) (s : St) (t x : Nat) : Prop :=
+  ∀ u ∈ reg, u ≠ t → ∀ y ∈ (s.pc u).subjects, y ≠ x ∧ ¬ Anc s.par y x
+
+/-- a run respects the API's preconditions (in particular: every `reset` was sequenced with respect to the operations on
+its subtree) iff no thread was flagged; decidable: only threads that occur in the schedule can be flagged -/
+def RunRespectsApi (cfg : Cfg) (reg : List Nat) (prog : Nat → List Op) (sched : List Nat) : Prop :=
+  ∀ t, ((CtxTree cfg reg prog).run sched).misuse t = false
+
+/-- the executable check by which the model flags an unsequenced `reset` (`resetOk`, evaluated when the call starts)
+implies the documented precondition, in every reachable state -/
+theorem reset_flag_sound (cfg : Cfg) (reg : List Nat) (prog : Nat → List Op) (sched : List Nat) (t x : Nat) :
+    let s := (CtxTree cfg reg prog).run sched
+    resetOk reg s t x = true → ResetAllowed reg s t x :=
+  fun h => resetOk_sound (struct_run cfg reg prog sched) h
+
+/-- **Cancellation reaches every bound descendant** (programs without reset in which no thread exits; threads may register
+during the run) — corollary of the theorem with resets: at quiescence every context bound beneath a cancelled context is
 cancelled — including contexts that were being bound while the cancellation was propagating. -/
 theorem cancel_reaches_all_bound
     (hmutex : Generated.C04.propagatorHoldsPropagationMutex = true)
     (hcopy : Generated.C04.bindCopyNeverClears = true)
-    (reg : List Nat) (prog : Nat → List Op) (hnr : NoReset prog) (sched : List Nat) :
+    (hreset : Generated.C04.resetClearsMayHaveChildren = false)
+    (reg : List Nat) (prog : Nat → List Op) (hnr : NoReset prog) (hne : NoExit prog) (sched : List Nat) :
     let s := (CtxTree genCfg reg prog).run sched
     Quiescent s → ReachesAllBound s := by
-  have hcfg : genCfg = C := by
-    unfold genCfg C
-    rw [hmutex, hcopy]
-  rw [hcfg]
-  intro s hq x a hb ha hc
-  exact reaches_of_inv (allInv_run reg prog hnr sched) hq hb ha hc
+  intro s hq
+  exact reach_core_noreset (cancel_reaches_all_bound_with_reset hmutex hcopy hreset reg prog sched hq).2
+    (orig_run genCfg reg prog sched) (norst_run genCfg reg prog hnr sched).rst (noexit_run genCfg reg prog hne sched).oc
+    (winStamped_run genCfg reg prog sched)
 
-/-- the same statement for the repaired protocol spelled out (unconditional) -/
-theorem cancel_reaches_all_bound_repaired (reg : List Nat) (prog : Nat → List Op) (hnr : NoReset prog)
+/-- the same statements for the repaired protocol spelled out (unconditional) -/
+theorem cancel_reaches_all_bound_repaired (reg : List Nat) (prog : Nat → List Op) (hnr : NoReset prog) (hne : NoExit prog)
     (sched : List Nat) :
-    let s := (CtxTree ⟨true, true⟩ reg prog).run sched
-    Quiescent s → ReachesAllBound s :=
-  fun hq x a hb ha hc => reaches_of_inv (allInv_run reg prog hnr sched) hq hb ha hc
+    let s := (CtxTree ⟨true, true, [.can]⟩ reg prog).run sched
+    Quiescent s → ReachesAllBound s := by
+  intro s hq
+  have hinv : AllInv reg s := allInv_run (r := [.can]) (by simp) reg prog sched
+  exact reach_core_noreset (reach_fresh_core hinv hq).2 hinv.2.1
+    (norst_run ⟨true, true, [.can]⟩ reg prog hnr sched).rst (noexit_run ⟨true, true, [.can]⟩ reg prog hne sched).oc
+    (winStamped_run ⟨true, true, [.can]⟩ reg prog sched)
+
+theorem cancel_reaches_all_bound_with_reset_repaired (reg : List Nat) (prog : Nat → List Op) (sched : List Nat) :
+    let s := (CtxTree ⟨true, true, [.can]⟩ reg prog).run sched
+    Quiescent s → ReachesAllBoundFresh s := by
+  intro s hq
+  have hinv : AllInv reg s := allInv_run (r := [.can]) (by simp) reg prog sched
+  exact (reach_fresh_core hinv hq).2
 
 /-! ## The obligations that fail on the protocol as coded before the repairs (closed witnesses, kernel-checked) -/
 
@@ -114,13 +229,13 @@ C1 ← C2 in its list; the canceller of C1 bumps the epoch, syncs B's list and i
 then paints C2.  At quiescence C5 is bound beneath the cancelled C2 and is not cancelled. -/
 theorem reach_fails_without_propagation_mutex (cnc : Bool) :
     ¬ (∀ (reg : List Nat) (prog : Nat → List Op), NoReset prog → ∀ sched : List Nat,
-        Quiescent ((CtxTree ⟨false, cnc⟩ reg prog).run sched) → ReachesAllBound ((CtxTree ⟨false, cnc⟩ reg prog).run sched)) := by
+        Quiescent ((CtxTree ⟨false, cnc, [.can]⟩ reg prog).run sched) → ReachesAllBound ((CtxTree ⟨false, cnc, [.can]⟩ reg prog).run sched)) := by
   intro h
   have hnr : NoReset f2Prog := by
     intro t x
     unfold f2Prog
     split <;> simp
-  have hw : ∀ S : St, S = (CtxTree ⟨false, cnc⟩ f2Reg f2Prog).run f2Sched →
+  have hw : ∀ S : St, S = (CtxTree ⟨false, cnc, [.can]⟩ f2Reg f2Prog).run f2Sched →
       S.pc 0 = .idle ∧ S.pc 1 = .idle ∧ S.pc 2 = .idle ∧
       S.cst 5 = .bound ∧ S.par 5 = some 2 ∧ S.can 2 = true ∧ S.can 5 = false := by
     intro S hS
@@ -133,8 +248,8 @@ theorem reach_fails_without_propagation_mutex (cnc : Bool) :
       unfold f2Final at this
       rw [← hS] at this
       exact ⟨this.1, this.2.1, this.2.2.1, this.2.2.2.2.1, this.2.2.2.2.2.1, this.2.2.2.2.2.2.2.1, this.2.2.2.2.2.2.2.2⟩
-  generalize hS : (CtxTree ⟨false, cnc⟩ f2Reg f2Prog).run f2Sched = S at *
-  have hq' := quiescent_of ⟨false, cnc⟩ f2Reg f2Prog f2Sched
+  generalize hS : (CtxTree ⟨false, cnc, [.can]⟩ f2Reg f2Prog).run f2Sched = S at *
+  have hq' := quiescent_of ⟨false, cnc, [.can]⟩ f2Reg f2Prog f2Sched
   rw [hS] at hq'
   have hwS := hw S rfl
   have hq : Quiescent S := by
@@ -158,17 +273,17 @@ is false even when the propagator holds the fall-back mutex: the binder loads 0 
 cancelled and the propagation paints the freshly registered child, the binder's store writes the stale 0 over it. -/
 theorem reach_fails_with_clearing_copy :
     ¬ (∀ (reg : List Nat) (prog : Nat → List Op), NoReset prog → ∀ sched : List Nat,
-        Quiescent ((CtxTree ⟨true, false⟩ reg prog).run sched) → ReachesAllBound ((CtxTree ⟨true, false⟩ reg prog).run sched)) := by
+        Quiescent ((CtxTree ⟨true, false, [.can]⟩ reg prog).run sched) → ReachesAllBound ((CtxTree ⟨true, false, [.can]⟩ reg prog).run sched)) := by
   intro h
   have hnr : NoReset staleProg := by
     intro t x
     unfold staleProg
     split <;> simp
   have hw0 := stale_copy_witness
-  generalize hS : (CtxTree ⟨true, false⟩ [1, 0] staleProg).run staleSched = S at hw0
+  generalize hS : (CtxTree ⟨true, false, [.can]⟩ [1, 0] staleProg).run staleSched = S at hw0
   have hw : S.pc 0 = .idle ∧ S.pc 1 = .idle ∧ S.res 0 = [true] ∧
       S.cst 2 = .bound ∧ S.par 2 = some 1 ∧ S.can 1 = true ∧ S.can 2 = false := hw0
-  have hq' := quiescent_of ⟨true, false⟩ [1, 0] staleProg staleSched
+  have hq' := quiescent_of ⟨true, false, [.can]⟩ [1, 0] staleProg staleSched
   rw [hS] at hq'
   have hq : Quiescent S := by
     refine hq' ?_
@@ -190,17 +305,123 @@ theorem reach_fails_with_clearing_copy :
 stickiness fails for the protocol as coded. -/
 theorem sticky_fails_with_clearing_copy :
     ∃ (reg : List Nat) (prog : Nat → List Op) (sched sched' : List Nat) (x : Nat),
-      let s := (CtxTree ⟨true, false⟩ reg prog).run sched
-      let s' := (CtxTree ⟨true, false⟩ reg prog).runFrom s sched'
+      let s := (CtxTree ⟨true, false, [.can]⟩ reg prog).run sched
+      let s' := (CtxTree ⟨true, false, [.can]⟩ reg prog).runFrom s sched'
       s.can x = true ∧ s'.can x = false ∧ s'.resets x = s.resets x :=
   ⟨[0], earlyProg, List.replicate 8 0, List.replicate 22 0, 2, by decide +kernel⟩
+
+/-- **A `reset` that also clears my_may_have_children falsifies the reach theorem** (everything else repaired).  Witness
+(one thread, no race, no API misuse): context 1 gets a bound child 2; context 1 is reset (which clears its hint although
+the child stays bound); the next `cancel_group_execution(1)` wins, finds the hint clear, skips the propagation and returns
+`true`.  At quiescence the winning cancel of 1 is current, 2 is bound beneath 1, was never reset, and is not cancelled.
+This is the edit "reset(): the tree has completed, let the next cancel take the fast path". -/
+theorem reach_fails_when_reset_clears_hint :
+    ¬ (∀ (reg : List Nat) (prog : Nat → List Op) (sched : List Nat),
+        Quiescent ((CtxTree ⟨true, true, [.can, .mhc]⟩ reg prog).run sched) →
+        ReachesAllBoundFresh ((CtxTree ⟨true, true, [.can, .mhc]⟩ reg prog).run sched)) := by
+  intro h
+  have hw0 := hint_cleared_witness
+  generalize hS : (CtxTree ⟨true, true, [.can, .mhc]⟩ [0] hintProg).run hintSched = S at hw0
+  have hw : S.pc 0 = .idle ∧ S.res 0 = [true] ∧ S.misuse 0 = false ∧ S.cst 2 = .bound ∧ S.par 2 = some 1 ∧
+      S.par 1 = none ∧ S.wst 1 = 2 ∧ S.rst 1 = 1 ∧ S.rst 2 = 0 ∧ S.can 1 = true ∧ S.can 2 = false ∧ S.mhc 1 = false ∧
+      S.oc 1 = false ∧ S.oc 2 = false := hw0
+  obtain ⟨h0, _, _, hb, hp, hroot, hwst, hrst1, hrst2, _, hc2, _, hoc1, hoc2⟩ := hw
+  have hq' := quiescent_of ⟨true, true, [.can, .mhc]⟩ [0] hintProg hintSched
+  rw [hS] at hq'
+  have hq : Quiescent S := by
+    refine hq' ?_
+    intro t ht
+    have : t = 0 := by
+      simp only [hintSched, List.mem_replicate] at ht
+      exact ht.2
+    subst this
+    exact h0
+  have h' := h [0] hintProg hintSched
+  rw [hS] at h'
+  have hbetween : ∀ z, Anc S.par 2 z → Anc S.par z 1 → False := by
+    -- the only context above 2 is its root parent 1
+    intro z hz1 hz2
+    obtain ⟨q, hq1, hq2⟩ := hz1.unfold
+    rw [hp] at hq1
+    cases hq1
+    rcases hq2 with e | hq2
+    · subst e
+      exact Anc.not_root hroot hz2
+    · exact Anc.not_root hroot hq2
+  have := h' hq 2 1 2 hb (.direct hp) ⟨hwst, by omega⟩ ⟨by omega, fun z hz1 hz2 => (hbetween z hz1 hz2).elim⟩
+    ⟨hoc2, fun z hz1 hz2 => (hbetween z hz1 hz2).elim⟩
+  rw [hc2] at this
+  cases this
+
+/-- **Contexts in the list of a thread that has exited are no longer reached** — a property of the code as it is (with
+both repairs and the as-coded `reset`): without the `RegisteredBelow` hypothesis the reach statement is false.  Witness (two
+threads, no race): thread 0 binds the root context 1; thread 1 binds context 2 beneath it — 2 is registered in thread 1's
+context list — and exits (`unregister_thread` removes its thread_data from my_threads_list, `~thread_data` orphans the
+non-empty list); thread 0 cancels context 1: the call wins and `propagate_task_group_state` walks the lists of the
+registered threads only.  At quiescence 2 is bound beneath the cancelled 1, was never reset, and is not cancelled.
+Reproduced on the real runtime (E-SHIM): finding `orphaned-list-not-reached`. -/
+theorem reach_fails_for_orphaned_list :
+    ¬ (∀ (reg : List Nat) (prog : Nat → List Op) (sched : List Nat),
+        Quiescent ((CtxTree ⟨true, true, [.can]⟩ reg prog).run sched) →
+        ∀ x a m, ((CtxTree ⟨true, true, [.can]⟩ reg prog).run sched).cst x = .bound →
+          Anc ((CtxTree ⟨true, true, [.can]⟩ reg prog).run sched).par x a →
+          CurrentCancel ((CtxTree ⟨true, true, [.can]⟩ reg prog).run sched) a m →
+          FreshBelow ((CtxTree ⟨true, true, [.can]⟩ reg prog).run sched) x a m →
+          ((CtxTree ⟨true, true, [.can]⟩ reg prog).run sched).can x = true) := by
+  intro h
+  have hw0 := orphan_witness
+  generalize hS : (CtxTree ⟨true, true, [.can]⟩ [1, 0] orphProg).run orphSched = S at hw0
+  have hw : S.pc 0 = .idle ∧ S.pc 1 = .idle ∧ S.res 0 = [true] ∧ S.misuse 0 = false ∧ S.misuse 1 = false ∧
+      S.cst 2 = .bound ∧ S.par 2 = some 1 ∧ S.par 1 = none ∧ S.wst 1 = 1 ∧ S.rst 1 = 0 ∧ S.rst 2 = 0 ∧
+      S.can 1 = true ∧ S.can 2 = false ∧ S.act 1 = false ∧ S.orph 1 = true ∧ S.oc 2 = true ∧ S.lst 2 = some 1 := hw0
+  obtain ⟨h0, h1, _, _, _, hb, hp, hroot, hwst, hrst1, hrst2, _, hc2, _⟩ := hw
+  have hq' := quiescent_of ⟨true, true, [.can]⟩ [1, 0] orphProg orphSched
+  rw [hS] at hq'
+  have hq : Quiescent S := by
+    refine hq' ?_
+    intro t ht
+    have : t = 0 ∨ t = 1 := by
+      simp only [orphSched, List.mem_append, List.mem_replicate] at ht
+      omega
+    rcases this with rfl | rfl
+    · exact h0
+    · exact h1
+  have h' := h [1, 0] orphProg orphSched
+  rw [hS] at h'
+  have hbetween : ∀ z, Anc S.par 2 z → Anc S.par z 1 → False := by
+    intro z hz1 hz2
+    obtain ⟨q, hq1, hq2⟩ := hz1.unfold
+    rw [hp] at hq1
+    cases hq1
+    rcases hq2 with e | hq2
+    · subst e
+      exact Anc.not_root hroot hz2
+    · exact Anc.not_root hroot hq2
+  have := h' hq 2 1 1 hb (.direct hp) ⟨hwst, by omega⟩ ⟨by omega, fun z hz1 hz2 => (hbetween z hz1 hz2).elim⟩
+  rw [hc2] at this
+  cases this
+
+/-- **Threads may register at any time**: for programs in which no thread exits (threads may create their thread_data
+while cancellations are in flight: the new context list starts at epoch 0, whatever the global epoch is) the reach
+statement holds without the `RegisteredBelow` proviso. -/
+theorem cancel_reaches_all_bound_late_threads
+    (hmutex : Generated.C04.propagatorHoldsPropagationMutex = true)
+    (hcopy : Generated.C04.bindCopyNeverClears = true)
+    (hreset : Generated.C04.resetClearsMayHaveChildren = false)
+    (reg : List Nat) (prog : Nat → List Op) (hne : NoExit prog) (sched : List Nat) :
+    let s := (CtxTree genCfg reg prog).run sched
+    Quiescent s → ∀ x a m, s.cst x = .bound → Anc s.par x a → CurrentCancel s a m → FreshBelow s x a m → s.can x = true := by
+  intro s hq x a m hb ha hc hf
+  have hoc := (noexit_run genCfg reg prog hne sched).oc
+  exact (cancel_reaches_all_bound_with_reset hmutex hcopy hreset reg prog sched hq).2 x a m hb ha hc hf
+    ⟨hoc x, fun z _ _ => hoc z⟩
 
 /-! ## Non-vacuity -/
 
 /-- the hypotheses of the main theorem are satisfiable and its conclusion is non-trivial: under the repaired protocol
 the F2 scenario ends quiescent with C5 bound beneath the cancelled C2 — and cancelled -/
 example :
-    let s := (CtxTree ⟨true, true⟩ f2Reg f2Prog).run (f2Sched ++ List.replicate 30 2 ++ List.replicate 30 0)
+    let s := (CtxTree ⟨true, true, [.can]⟩ f2Reg f2Prog).run (f2Sched ++ List.replicate 30 2 ++ List.replicate 30 0)
     s.pc 0 = .idle ∧ s.pc 1 = .idle ∧ s.pc 2 = .idle ∧ s.cst 5 = .bound ∧ s.par 5 = some 2 ∧ s.can 2 = true ∧
       s.can 5 = true ∧ s.wins 1 = 1 ∧ s.wins 2 = 0 := by
   decide +kernel
@@ -208,8 +429,47 @@ example :
 /-- no-overreach is non-trivial: in that run the unrelated context 7 and the root's sibling stay clear while 1, 2, 5 are
 marked by the single winning call on 1 -/
 example :
-    let s := (CtxTree ⟨true, true⟩ f2Reg f2Prog).run (f2Sched ++ List.replicate 30 2 ++ List.replicate 30 0)
+    let s := (CtxTree ⟨true, true, [.can]⟩ f2Reg f2Prog).run (f2Sched ++ List.replicate 30 2 ++ List.replicate 30 0)
     s.can 1 = true ∧ s.can 7 = false ∧ s.res 0 = [true] := by
   decide +kernel
+
+/-- the theorem with resets is not vacuous: a round trip on the repaired protocol — context 1 with a bound child 2 is cancelled
+(both flags set), the child and then the parent are reset (both clear), the parent is cancelled again: the second winning
+cancel (stamp 4) is current, the child was last reset at stamp 2 < 4, and the child is cancelled again; both calls returned
+`true`; no API precondition was violated -/
+example :
+    let s := (CtxTree ⟨true, true, [.can]⟩ [0] hintProg2).run (List.replicate 60 0)
+    s.pc 0 = .idle ∧ s.res 0 = [true, true] ∧ s.misuse 0 = false ∧ s.cst 2 = .bound ∧ s.par 2 = some 1 ∧
+      CurrentCancel s 1 4 ∧ s.rst 2 = 2 ∧ s.rst 1 = 3 ∧ s.can 1 = true ∧ s.can 2 = true ∧ s.mhc 1 = true := by
+  unfold CurrentCancel
+  decide +kernel
+
+/-- ... and its freshness hypothesis is not redundant: resetting only the child after the parent's cancellation leaves the
+child (legitimately) uncancelled beneath the cancelled parent — `FreshBelow` fails for it -/
+example :
+    let s := (CtxTree ⟨true, true, [.can]⟩ [0] (fun t => if t = 0 then [.bind 1 none, .bind 2 (some 1), .cancel 1, .reset 2] else [])).run
+      (List.replicate 50 0)
+    s.pc 0 = .idle ∧ s.can 1 = true ∧ s.can 2 = false ∧ s.wst 1 = 1 ∧ s.rst 2 = 2 := by
+  decide +kernel
+
+/-- the discipline flag is not vacuous: a reset of context 1 issued while another thread is binding a child beneath it is
+flagged (and still performed, as in the code) -/
+example :
+    let s := (CtxTree ⟨true, true, [.can]⟩ [0, 1] (fun t => if t = 0 then [.bind 1 none, .reset 1] else if t = 1 then [.bind 2 (some 1)] else [])).run
+      (List.replicate 4 0 ++ List.replicate 3 1 ++ [0])
+    s.misuse 0 = true ∧ s.resets 1 = 1 := by
+  decide +kernel
+
+/-- the dynamic registry is exercised non-trivially: a thread registers after a propagation has run (global epoch 1, its
+fresh list's epoch word 0), binds a context beneath the already cancelled tree in its own list, and the context ends
+cancelled (the epoch comparison fails, the binder re-copies under the propagation mutex) -/
+example :
+    let s := (CtxTree ⟨true, true, [.can]⟩ [1, 0] lateProg).run lateSched
+    s.pc 0 = .idle ∧ s.pc 1 = .idle ∧ s.act 1 = true ∧ s.joined 1 = 1 ∧ s.epoch 1 = 0 ∧ s.G = 1 ∧ s.cst 3 = .bound ∧
+      s.lst 3 = some 1 ∧ s.can 3 = true ∧ s.oc 3 = false :=
+  ⟨late_register_witness.1, late_register_witness.2.1, late_register_witness.2.2.2.2.1, late_register_witness.2.2.2.2.2.1,
+   late_register_witness.2.2.2.2.2.2.1, late_register_witness.2.2.2.2.2.2.2.1, late_register_witness.2.2.2.2.2.2.2.2.1,
+   late_register_witness.2.2.2.2.2.2.2.2.2.2.1, late_register_witness.2.2.2.2.2.2.2.2.2.2.2.2.2.1,
+   late_register_witness.2.2.2.2.2.2.2.2.2.2.2.2.2.2⟩
 
 end TbbVerif.C04.Props
